@@ -257,6 +257,13 @@ def group_laws(seed, n_per, kinds=('R2', 'R3', 'SE2', 'SE3')):
                         rng.shuffle(vec)
                         sg = rng.choice([1.0, -1.0])
                         v[3:] = [sg * x for x in vec] + [q[3] * rng.choice([1.0, -1.0])]
+            if k == 'SE2' and rng.random() < 0.2:
+                # headings whose SUM (a (+) b) or DIFFERENCE (a (-) c) lands a hair inside the branch cut (1e-4 .. 1e-7 rad from +-pi): the laws are
+                # compared as matrices, which are continuous there
+                sg = rng.choice([-1.0, 1.0])
+                eps_ = 10.0 ** rng.uniform(-7, -4)
+                b[2] = sg * (math.pi - eps_) - a[2]
+                c[2] = a[2] - sg * (math.pi - eps_)
             A, B, Cc = make_pose(k, a), make_pose(k, b), make_pose(k, c)
             data = {'a': a, 'b': b, 'c': c}
             sc = 1.0 + max(abs(x) for x in a + b + c) ** 2
@@ -264,6 +271,7 @@ def group_laws(seed, n_per, kinds=('R2', 'R3', 'SE2', 'SE3')):
             try:
                 chk(k, 'mat_oplus', np.allclose(hom(k, (A + B).to_array()), hom(k, A.to_array()) @ hom(k, B.to_array()), rtol=0, atol=tol), data)
                 chk(k, 'ominus_def', np.allclose(hom(k, (A - B).to_array()), hom(k, (B.inverse + A).to_array()), rtol=0, atol=tol), data)
+                chk(k, 'mat_ominus', np.allclose(hom(k, (A - Cc).to_array()), np.linalg.inv(hom(k, Cc.to_array())) @ hom(k, A.to_array()), rtol=0, atol=tol * sc), data)
                 I = type(A).identity()
                 chk(k, 'inverse_right', np.allclose(hom(k, (A + A.inverse).to_array()), hom(k, I.to_array()), rtol=0, atol=tol), data)
                 chk(k, 'inverse_left', np.allclose(hom(k, (A.inverse + A).to_array()), hom(k, I.to_array()), rtol=0, atol=tol), data)
@@ -352,7 +360,16 @@ def group_laws(seed, n_per, kinds=('R2', 'R3', 'SE2', 'SE3')):
             A = make_pose(k, safe_vals(rng, k, 'typical'))
             ptp = make_pose(POINT[k], safe_vals(rng, POINT[k], 'typical'))
             r_obj = np.asarray(A + ptp, dtype=np.float64)
-            r_arr = np.asarray(A + np.array(np.asarray(ptp), dtype=np.float64), dtype=np.float64)
+            raw = np.array(np.asarray(ptp), dtype=np.float64)          # e.g. a row of a point cloud
+            raw0 = raw.copy()
+            res1 = A + raw
+            r_arr = np.asarray(res1, dtype=np.float64).copy()
+            res2 = np.asarray(A + raw, dtype=np.float64)
+            if POINT[k] != k:
+                chk(k, 'raw_array_point_operand_kept', raw.tobytes() == raw0.tobytes() and not np.shares_memory(np.asarray(res1), raw)
+                    and res2.shape == r_arr.shape and np.array_equal(res2, r_arr),
+                    {'a': [float(x) for x in np.asarray(A)], 'point': raw0.tolist(), 'point_after_the_call': raw.tolist(), 'first_result': r_arr.tolist(),
+                     'second_result_with_the_same_array': res2.tolist(), 'sequence': 'x = np.array(point); r1 = a + x; r2 = a + x'})
             if POINT[k] != k:
                 chk(k, 'raw_array_point', r_obj.shape == r_arr.shape and np.allclose(r_obj, r_arr, rtol=0, atol=1e-12 * (1 + float(np.abs(r_obj).max()))),
                     {'a': [float(x) for x in np.asarray(A)], 'point': [float(x) for x in np.asarray(ptp)], 'with_object': r_obj.tolist(), 'with_raw_array': r_arr.tolist()})
